@@ -349,7 +349,26 @@ func runC12GuardCLI(g c12Guard) Result {
 					err = fmt.Errorf("panic: %v", r)
 				}
 			}()
-			_, err = prover.ImportDeletionSetup(uint32(g.Depth), uint32(g.Batch), "/nonexistent/pk", "/nonexistent/vk")
+			// readable key files (from an unrelated small setup), so that a refusal can only come from the depth guard
+			dir, terr := os.MkdirTemp(os.Getenv("VERIF_WORK"), "c12g-")
+			if terr != nil {
+				err = nil
+				return
+			}
+			defer os.RemoveAll(dir)
+			small, serr := newSmallSystem(SmallShape{NMul: 2, NPub: 1, NSec: 1, Depth: 2, Batch: 1})
+			if serr != nil {
+				return
+			}
+			pkp, vkp := filepath.Join(dir, "pk"), filepath.Join(dir, "vk")
+			if writeKey(pkp, small.ProvingKey.WriteTo) != nil || writeKey(vkp, small.VerifyingKey.WriteTo) != nil {
+				return
+			}
+			var imp *prover.ProvingSystem
+			imp, err = prover.ImportDeletionSetup(uint32(g.Depth), uint32(g.Batch), pkp, vkp)
+			if err == nil && imp == nil {
+				err = fmt.Errorf("nil system")
+			}
 		}()
 	case "cli-r1cs", "cli-setup":
 		dir, terr := os.MkdirTemp(os.Getenv("VERIF_WORK"), "c12g-")
